@@ -50,6 +50,7 @@ type FuncSpec struct {
 	Mode      string // precise | abstract
 	Requires  []Clause
 	Ensures   []Clause
+	Assumes   []Clause
 	Modifies  []string
 	ModAll    bool // modifies * (everything reachable from arguments)
 	ModNothing bool // explicit `modifies nothing`
@@ -91,6 +92,7 @@ type SpecFunc struct {
 	File   string
 	Line   int
 	Opaque bool
+	PkgPath string // package whose scope resolves the identifiers of the body
 }
 
 type SpecParam struct{ Name, Type string }
@@ -206,6 +208,7 @@ func (cs *Contracts) loadContractFile(path, pkgPath string) error {
 				return fmt.Errorf("%s:%d: %v", path, lineNo, err)
 			}
 			sf.File, sf.Line = path, lineNo
+			sf.PkgPath = pkgPath
 			cs.SpecFns[sf.Name] = sf
 			cur = nil
 			continue
@@ -259,6 +262,9 @@ func (cs *Contracts) loadContractFile(path, pkgPath string) error {
 			cur.Requires = append(cur.Requires, cl)
 		case "ensures":
 			cur.Ensures = append(cur.Ensures, cl)
+		case "assumes":
+			// postcondition assumed at call sites but not proved from the body (listed as assumption)
+			cur.Assumes = append(cur.Assumes, cl)
 		case "modifies":
 			for _, m := range splitTop(rest, ',') {
 				m = strings.TrimSpace(m)
